@@ -1292,6 +1292,8 @@ var execPool = []execSample{
 	{"echo '{{.FOO}} $FOO'", "{{.FOO}} $FOO\n", 0},
 	// more than 64 KiB: a value is the WHOLE standard output
 	{"/usr/bin/head -c 70000 /dev/zero | /usr/bin/tr '\\0' y", strings.Repeat("y", 70000), 0},
+	// a pipeline is as good as its LAST stage (no pipefail): the value is what it printed
+	{"false | echo hello", "hello\n", 0},
 	{"exit 3", "", 3},
 	{"false", "", 1},
 	{"echo partial; exit 2", "partial\n", 2},
@@ -1618,6 +1620,12 @@ func genMain(w *bufio.Writer, a map[string]string) {
 			}
 			i++
 			fmt.Fprintln(w, tc.encode())
+		}
+	case "C20":
+		// the env engine as an extra engine of C20: `--vars` lists every variable with its EVALUATED value (string, join(…),
+		// exec(…) — each exec evaluated on its own)
+		for i := 0; i < 300; i++ {
+			fmt.Fprintln(w, g.c13Random().encode())
 		}
 	case "C13":
 		n := 560
